@@ -24,10 +24,10 @@ func (w *world) evidence(fams []family, b *bfs) {
 		}
 	}
 	r.Set("bfs_universe_files", nu)
-	r.Set("transitions", cnt.applies)
-	r.Set("traces_validated_against_impl", cnt.applies)
-	r.Set("evaluations", cnt.evals)
-	r.Set("distinct_nontrivial", cnt.singleNontrivial+cnt.faultyNontrivial)
+	r.Set("transitions", cnt.Applies)
+	r.Set("traces_validated_against_impl", cnt.Applies)
+	r.Set("evaluations", cnt.Evals)
+	r.Set("distinct_nontrivial", cnt.SingleNontrivial+cnt.FaultyNontrivial)
 	r.Set("data_files", len(w.states))
 	var fs []string
 	for _, f := range fams {
@@ -37,23 +37,23 @@ func (w *world) evidence(fams []family, b *bfs) {
 	r.Set("alphabet_source_lines", len(alphabet))
 	r.Set("key_layouts", len(layouts))
 	r.Set("max_orders_per_diff", maxOrders)
-	r.Set("file_pairs_x_layouts", cnt.pairs)
-	r.Set("pairs_with_every_order", cnt.pairsAllOrders)
-	r.Set("pairs_with_24_selected_orders", cnt.pairsCapped)
-	r.Set("max_diff_lines", cnt.maxDiffLines)
-	r.Set("valid_transitions_fresh_copy_file_api_full_dump", cnt.strict)
-	r.Set("valid_transitions_other_orders_in_session", cnt.light)
-	r.Set("valid_transitions_store_must_change", cnt.singleNontrivial)
-	r.Set("faulty_transitions", cnt.faulty)
-	r.Set("faulty_transitions_with_valid_lines_around", cnt.faultyNontrivial)
-	r.Set("bfs_chain_applies", cnt.chain)
+	r.Set("file_pairs_x_layouts", cnt.Pairs)
+	r.Set("pairs_with_every_order", cnt.PairsAllOrders)
+	r.Set("pairs_with_24_selected_orders", cnt.PairsCapped)
+	r.Set("max_diff_lines", cnt.MaxDiffLines)
+	r.Set("valid_transitions_fresh_copy_file_api_full_dump", cnt.Strict)
+	r.Set("valid_transitions_other_orders_in_session", cnt.Light)
+	r.Set("valid_transitions_store_must_change", cnt.SingleNontrivial)
+	r.Set("faulty_transitions", cnt.Faulty)
+	r.Set("faulty_transitions_with_valid_lines_around", cnt.FaultyNontrivial)
+	r.Set("bfs_chain_applies", cnt.Chain)
 	r.Set("bfs_new_store_contents_per_depth", b.levels)
 	r.Set("bfs_depth", r.Pick(2, 3))
-	r.Set("walk_applies", cnt.walk)
-	r.Set("serial_skew_applies", cnt.skew)
-	r.Set("full_raw_iterator_dumps", cnt.fullDumps)
-	r.Set("sessions", cnt.sessions)
-	r.Set("session_copies_replaced_after_a_failing_case", cnt.resets)
+	r.Set("walk_applies", cnt.Walk)
+	r.Set("serial_skew_applies", cnt.Skew)
+	r.Set("full_raw_iterator_dumps", cnt.FullDumps)
+	r.Set("sessions", cnt.Sessions)
+	r.Set("session_copies_replaced_after_a_failing_case", cnt.Resets)
 	lines := map[string]bool{}
 	for _, s := range w.states {
 		for _, l := range s.pre {
